@@ -122,10 +122,9 @@ BmStep(bm, acc, cfgs, n, e) ==
                    ELSE IF stack /\ c.nxt <= c.total THEN ko("end-of-message acknowledge before all packets were on the bus")
                    ELSE ok(BDel(bm, CKey(da, sa)))
          [] d[1] = CB_ABORT ->
-              \* an abort revokes every clearance on the pair (it does not say which of two successive
-              \* connections it means); a later CTS clears packets again
-              LET rv(b, k) == IF BHas(b, k) THEN BPut(b, [BGet(b, k) EXCEPT !.hi = BGet(b, k).nxt - 1]) ELSE b
-              IN ok(rv(rv(bm, CKey(da, sa)), CKey(sa, da)))
+              \* an abort ends a connection but does not un-clear packets a CTS has cleared before (the stack
+              \* finishes the window it was granted; the property is about clearance, not about aborts)
+              ok(bm)
          [] OTHER -> ok(bm)
     ELSE \* TP.DT
        IF ~BHas(bm, CKey(sa, da))
